@@ -21,7 +21,17 @@
      has exactly one entry, placed strictly inside that call's interval (so the order respects
      real time: C05_write_order_respects_real_time);
    - C05_completed_put_is_visible: a get(k) taken after a put(k,x) returned yields x unless another
-     write to k was applied after that put.
+     write to k was applied after that put;
+   - the bridge to the sequential development (ConcSeq.v): the concurrent model restricted to ONE
+     thread IS the ordered-map specification.  C05_single_thread_runs_to_completion: one thread
+     finishes under the schedule that runs it total_work times, and any two schedules that
+     complete it end in the same state; C05_single_thread_is_the_ordered_map: without faults and
+     without initial blobs, after ANY completing schedule the results are cspec_outs (the fold
+     of cspec, the ordered-map meaning of every call kind on a key -> content map), the key map
+     is km_of of the final map and the blob directory holds exactly the blobs of that map;
+     C05_cspec_is_the_sequential_spec / C05_single_thread_refines_the_sequential_spec: cspec is
+     History.spec_step / StoreHist.spec_out call by call, so the results are StoreHist.spec_outs
+     (the specification of C01) of the same history.
    Positions: [st i] is the state after the first i scheduled steps; step i is taken by thread
    [who i]; starts_at s t j c / ends_at e t j r: step s takes t's j-th call c, step e appends its
    result r.  What the model cannot exhibit: relaxed-memory effects and the fairness of the real
@@ -40,8 +50,11 @@
    - a completed put is visible to later gets when neither returned CErr;
    - C05_no_errors_without_faults: under NoFaults no call returns CErr, so all of the above read as
      before. *)
+From Cas Require Import History.
+From CasProofs Require Import StoreInv StoreHist.
 From Cas Require Import Conc.
 From CasProofs Require Import ConcInv ConcProofs ConcReads ConcExamples ConcLin.
+From CasProofs Require Import ConcProgress ConcSeq.
 From CasProps Require Import ConcSetting.
 
 Theorem C05_read_never_fails :
@@ -303,3 +316,134 @@ Example C05_range_and_iteration_races := ConcExamples.range_read_races_longer_ov
 Example C05_range_race_old_value := ConcLin.range_race_old_witness.
 Example C05_range_race_new_value := ConcLin.range_race_new_witness.
 Example C05_iteration_race := ConcLin.iter_race_witness.
+
+(* ---------------------------------------------------------------------------------------- *)
+(* ONE thread: the concurrent model is the sequential ordered-map specification (ConcSeq.v) *)
+
+(* one thread t running the program cs (any fault parameters, any well-named initial blob
+   directory): scheduled total_work times or more it has finished; and two schedules after
+   which it has finished end in the SAME state (results, key map, blob directory, ...) *)
+Theorem C05_single_thread_runs_to_completion :
+  forall H cmp nops bad ckbad t cs cas0, ConcSetting H cmp [(t, cs)] cas0 ->
+    (forall n, (total_work [(t, cs)] cas0 <= n)%nat ->
+       all_finished (crun H cmp nops bad ckbad (init_c [(t, cs)] cas0) (repeat t n)) = true) /\
+    (forall s1 s2,
+       all_finished (crun H cmp nops bad ckbad (init_c [(t, cs)] cas0) s1) = true ->
+       all_finished (crun H cmp nops bad ckbad (init_c [(t, cs)] cas0) s2) = true ->
+       crun H cmp nops bad ckbad (init_c [(t, cs)] cas0) s1
+       = crun H cmp nops bad ckbad (init_c [(t, cs)] cas0) s2).
+Proof.
+  intros H cmp nops bad ckbad t cs cas0 (A & B & C & D & E & F & G & I).
+  exact (ConcSeq.single_thread_runs_to_completion H cmp A B C D nops bad ckbad t cs cas0 F G I).
+Qed.
+Print Assumptions C05_single_thread_runs_to_completion.
+
+(* the ordered-map meaning of the calls, by computation: cspec M c = (map after, result) *)
+Example C05_cspec_by_cases :
+  forall cmp (M : smap bytes) k x lo hi a b hs,
+    cspec cmp M (KPut k x) = (sm_ins cmp M k x, CUnit) /\
+    cspec cmp M (KAbort k x) = (M, CUnit) /\
+    cspec cmp M (KRemove k)
+      = (sm_del cmp M k, CBool (match sm_get cmp M k with Some _ => true | None => false end)) /\
+    cspec cmp M (KRemoveRange lo hi)
+      = (filter (fun e => negb (in_range cmp lo hi (fst e))) M,
+         CNum (N.of_nat (length (filter (fun e => in_range cmp lo hi (fst e)) M)))) /\
+    cspec cmp M (KGet k) = (M, CBytes (sm_get cmp M k)) /\
+    cspec cmp M (KGetSize k) = (M, CSize (option_map len (sm_get cmp M k))) /\
+    cspec cmp M (KGetRange k a b)
+      = (M, match sm_get cmp M k with
+            | None => CBytes None
+            | Some c => match pre_open (MRange a b) (mkItem [] (len c)) with
+                        | Some r => r
+                        | None => CBytes (Some (slice c a (N.min b (len c))))
+                        end
+            end) /\
+    cspec cmp M KIter = (M, CKeys (map fst M)) /\
+    cspec cmp M KCheckpoint = (M, CUnit) /\
+    cspec cmp M (KDelOrphans hs) = (M, COrphans 0 (N.of_nat (length hs))) /\
+    (forall cs, cspec_outs cmp M cs = map snd (cspec_run cmp M cs)) /\
+    (forall cs, cspec_final cmp M cs = fold_left (fun M c => fst (cspec cmp M c)) cs M).
+Proof.
+  intros. repeat split; try reflexivity.
+  - cbn [cspec]. destruct (sm_get cmp M k) as [c|]; [|reflexivity].
+    rewrite (range_res_pre_open [] c a b). reflexivity.
+  - intros cs. apply cspec_outs_run.
+Qed.
+
+(* no faults, no initial blobs, H collision-free on the contents put by cs: after ANY schedule
+   that runs the single thread to completion
+   - the thread has returned exactly the results of the specification, in order,
+   - the key map is the image of the final map Mf of the specification: key k holds the item
+     (H c, len c) iff Mf has k -> c,
+   - the blob directory holds exactly the blobs of Mf, each under its hash (C07 at quiescence) *)
+Theorem C05_single_thread_is_the_ordered_map :
+  forall H cmp nops bad ckbad t cs, ConcSetting H cmp [(t, cs)] [] -> NoFaults bad ckbad ->
+  forall sched,
+    all_finished (crun H cmp nops bad ckbad (init_c [(t, cs)] []) sched) = true ->
+    let g := crun H cmp nops bad ckbad (init_c [(t, cs)] []) sched in
+    let Mf := cspec_final cmp [] cs in
+    g_thr g = [(t, mkT [] Idle (cspec_outs cmp [] cs))] /\
+    km (g_idx g) = km_of H Mf /\
+    sorted cmp Mf /\
+    (forall k it, sm_get cmp (km (g_idx g)) k = Some it <->
+                  exists c, sm_get cmp Mf k = Some c /\ it = mkItem (H c) (len c)) /\
+    (forall h x, sm_get lex_cmp (g_cas g) h = Some x <-> (exists k, In (k, x) Mf) /\ h = H x).
+Proof.
+  intros H cmp nops bad ckbad t cs (A & B & C & D & E & F & G & I) [NB NC].
+  apply (ConcSeq.single_thread_is_the_ordered_map H cmp A B C D nops bad ckbad NB NC t cs).
+  intros a b Ia Ib. apply I; apply (allc_single t cs); assumption.
+Qed.
+Print Assumptions C05_single_thread_is_the_ordered_map.
+
+(* before completion (any schedule, any moment): the results returned so far are a prefix of
+   the results of the specification *)
+Theorem C05_single_thread_results_are_a_prefix :
+  forall H cmp nops bad ckbad t cs, ConcSetting H cmp [(t, cs)] [] -> NoFaults bad ckbad ->
+  forall sched ts,
+    tget (g_thr (crun H cmp nops bad ckbad (init_c [(t, cs)] []) sched)) t = Some ts ->
+    exists rest, t_res ts ++ rest = cspec_outs cmp [] cs.
+Proof.
+  intros H cmp nops bad ckbad t cs (A & B & C & D & E & F & G & I) [NB NC].
+  apply (ConcSeq.single_thread_results_are_a_prefix H cmp A B C D nops bad ckbad NB NC t cs).
+  intros a b Ia Ib. apply I; apply (allc_single t cs); assumption.
+Qed.
+Print Assumptions C05_single_thread_results_are_a_prefix.
+
+(* cspec is the specification of the sequential development: for the key order of a
+   configuration, the map component is History.spec_step and the result is StoreHist.spec_out of
+   the corresponding API call (api_of_call; delete_orphans has no counterpart there and, as in
+   StoreHist.api_op, the bounds on which BTreeMap::range panics are excluded: seq_call).
+   res_matches: equal results; an iteration returns the keys of the entries; InvalidRange *)
+Theorem C05_cspec_is_the_sequential_spec :
+  forall H cfg (M : smap bytes) c, seq_call (key_cmp (c_kt cfg)) c ->
+    fst (cspec (key_cmp (c_kt cfg)) M c) = spec_step (key_cmp (c_kt cfg)) M (api_of_call c) /\
+    res_matches (snd (cspec (key_cmp (c_kt cfg)) M c)) (spec_out H cfg M (api_of_call c)).
+Proof. exact ConcSeq.cspec_is_the_sequential_spec. Qed.
+Print Assumptions C05_cspec_is_the_sequential_spec.
+
+(* hence: one thread of the concurrent model, run to completion under any schedule, returns
+   what StoreHist.spec_outs prescribes for the same history on one open handle (the
+   specification of C01), and its key map is km_of of the fold of History.spec_step *)
+Theorem C05_single_thread_refines_the_sequential_spec :
+  forall H cfg nops bad ckbad t cs sched,
+    NoFaults bad ckbad ->
+    (forall a b, In a (flat_map call_contents cs) -> In b (flat_map call_contents cs) ->
+                 H a = H b -> a = b) ->
+    Forall (seq_call (key_cmp (c_kt cfg))) cs ->
+    let g := crun H (key_cmp (c_kt cfg)) nops bad ckbad (init_c [(t, cs)] []) sched in
+    all_finished g = true ->
+    exists res,
+      g_thr g = [(t, mkT [] Idle res)] /\
+      Forall2 res_matches res (spec_outs H cfg [] (map api_of_call cs)) /\
+      km (g_idx g) = km_of H (fold_left (spec_step (key_cmp (c_kt cfg))) (map api_of_call cs) []).
+Proof.
+  intros H cfg nops bad ckbad t cs sched [NB NC] NoCol F.
+  exact (ConcSeq.single_thread_refines_the_sequential_spec H cfg nops bad ckbad t cs sched NB NC NoCol F).
+Qed.
+Print Assumptions C05_single_thread_refines_the_sequential_spec.
+
+(* by computation (toyH, lex_cmp): a program using every call kind, its specification, its run
+   with thread 0 scheduled 400 times, and -- from the theorem -- every completing schedule *)
+Example C05_single_thread_example_spec := ConcSeq.prog1_spec.
+Example C05_single_thread_example_run := ConcSeq.prog1_run.
+Example C05_single_thread_example_every_schedule := ConcSeq.prog1_every_schedule.
